@@ -45,7 +45,9 @@ RULE = (
     "Hebrew for R5/R6, owner==user, no owner password), /P with random permission bits and the reserved bits as "
     "Table 22 requires, /ID present (16 or odd lengths) / two empty strings / absent, EncryptMetadata true/false "
     "with a catalog /Metadata stream, Encrypt dictionary indirect or direct, table / xref stream / object streams, cross-reference streams "
-    "with /W third width 0 (then no generation > 0 and one object per object stream), 1 or 2 and second width minimal or 4, "
+    "(45% of the classic-table files have their cross-reference damaged in one of three ways - startxref beyond EOF / not "
+    "a number / pointing at the header - so that the table is rebuilt from the body; the "
+    "expectation stays the intact twin; generations > 0 also on content streams and Info) with /W third width 0 (then no generation > 0 and one object per object stream), 1 or 2 and second width minimal or 4, "
     "object numbers up to 8388607 and generations up to 65534, strings of all lengths 0..40 in every document plus "
     "longer ones, streams with lengths around the AES block boundaries, raw and Flate. Wrong passwords: prefix, "
     "extension, case swap, doubled, empty, random, 32nd/127th-byte variants, non-Latin-1, not PDFDocEncodable. "
@@ -76,6 +78,8 @@ TAG_IDDEFAULT = "identity_default_crypt_filter"
 TAG_SASLMAP = "r6_saslprep_mapping"
 TAG_UNPREP = "r6_unpreparable_password"
 
+TAGS = (TAG_STREAMDICT, TAG_IDDEFAULT, TAG_SASLMAP, TAG_UNPREP)
+
 # (V, R, bits, cfm)
 CONFIGS: List[Tuple[int, int, int, Optional[str]]] = (
     [(1, 2, 40, None), (1, 3, 40, None)]
@@ -104,6 +108,9 @@ def minimums(tier: str) -> Dict[str, int]:
          "tagged:%s" % TAG_IDDEFAULT: 20, "tagged:%s" % TAG_SASLMAP: 10, "tagged:%s" % TAG_UNPREP: 6,
          "encrypt_length:V4:absent": 80, "encrypt_length:V4:written": 80, "encrypt_length:V5:absent": 150,
          "encrypt_length:V5:written": 150, "encrypt_length:V2:absent": 8,
+         "damaged_xref_docs": 90, "fallback_xref_opens": 180, "seen:damage_mode": 3,
+         "damaged_xref_docs:per_object_key_with_gen": 50, "damaged_xref_docs:per_object_key_with_gen_on_content_or_info": 40,
+         "intact_docs_with_gen_on_content_or_info": 100,
          "xref_w3:0:per_object_key_docs": 100, "xref_w3:1:per_object_key_docs": 60, "xref_w3:2:per_object_key_docs": 150,
          "xref_w3:1:per_object_key_docs_with_gen": 40, "xref_w3:2:per_object_key_docs_with_gen": 100}
     if tier == "quick":
@@ -385,6 +392,32 @@ def gen_carrier(rng: random.Random, strings: List[bytes]) -> Any:
     return root
 
 
+# Only damages after which pdfminer really rebuilds the table (PDFXRefFallback) are generated: a garbled "xref"
+# keyword is read tolerantly without a rebuild, and a garbled "startxref" keyword is not recovered at all
+# ("No /Root object"); damaged files are not conformant, so nothing is demanded for those two.
+DAMAGE_MODES = ["startxref_beyond_eof", "startxref_not_a_number", "startxref_stale_header"]
+
+
+def damage_xref(pdf: bytes, mode: str) -> bytes:
+    """Damage the cross-reference information of a classic-table file (same length where possible) so that a
+    reader has to rebuild the table by scanning the body for 'n g obj' lines."""
+    m = re.search(rb"startxref\n(\d+)\n%%EOF\n$", pdf)
+    assert m, "no startxref"
+    off = int(m.group(1))
+    assert pdf[off:off + 5] == b"xref\n"
+    if mode == "startxref_beyond_eof":
+        return pdf[:m.start(1)] + b"%d" % (len(pdf) + 1000) + pdf[m.end(1):]
+    if mode == "startxref_not_a_number":
+        return pdf[:m.start(1)] + b"x" * len(m.group(1)) + pdf[m.end(1):]
+    if mode == "xref_keyword_garbled":
+        return pdf[:off] + b"xrex\n" + pdf[off + 5:]
+    if mode == "startxref_stale_header":
+        return pdf[:m.start(1)] + b"0" + pdf[m.end(1):]
+    if mode == "startxref_keyword_garbled":
+        return pdf[:m.start()] + b"startxrex" + pdf[m.start() + 9:]
+    raise ValueError(mode)
+
+
 STREAM_LENGTHS = list(range(0, 41)) + [47, 48, 49, 63, 64, 65, 255, 256, 257, 1000, 2047, 2048, 4096 + 5]
 
 
@@ -482,6 +515,23 @@ def gen_case(seed: int, sub: int, j: int, tier: str = "quick") -> Dict[str, Any]
     for n, o in doc.objs.items():
         if isinstance(o, dict) and o.get("Type") == N("Page"):
             o["Resources"] = {"Font": {"F1": font_ref}}
+    # generation > 0 on content streams and the Info dictionary (references carry the generation)
+    damage = rng.choice(DAMAGE_MODES) if xref_kind == "table" and rng.random() < 0.45 else None
+    if gens_allowed and rng.random() < (0.9 if damage else 0.3):
+        for n, o in list(doc.objs.items()):
+            if isinstance(o, dict) and o.get("Type") == N("Page"):
+                c = o["Contents"]
+                refs = c if isinstance(c, list) else [c]
+                new = []
+                for r_ in refs:
+                    if rng.random() < 0.7:
+                        doc.gens[r_.n] = rng.choice(gens_allowed)
+                    new.append(Ref(r_.n, doc.gens.get(r_.n, 0)))
+                o["Contents"] = new if isinstance(c, list) else new[0]
+        if rng.random() < 0.7:
+            inf = doc.trailer["Info"]
+            doc.gens[inf.n] = rng.choice(gens_allowed)
+            doc.trailer["Info"] = Ref(inf.n, doc.gens[inf.n])
     # plaintext bookkeeping
     stream_plain: Dict[int, Tuple[bytes, str]] = {}
     for n, o in doc.objs.items():
@@ -608,6 +658,9 @@ def gen_case(seed: int, sub: int, j: int, tier: str = "quick") -> Dict[str, Any]
         pdf = doc.build(xref=xk, objstm=groups[0] if groups else None, encryptor=enc)
         members = sorted(n for n in (groups[0] if groups else []) if n in expect_objs)
         builder = "pdfw"
+    if damage:
+        assert xk == "table"
+        pdf = damage_xref(pdf, damage)
     xref_objnum = None
     if xk == "stream":
         m = re.search(rb"startxref\s+(\d+)\s+%%EOF\s*$", pdf)
@@ -621,7 +674,7 @@ def gen_case(seed: int, sub: int, j: int, tier: str = "quick") -> Dict[str, Any]
         wrong = [("unpreparable", w) for w in UNPREPARABLE] + wrong[:3]
 
     return {
-        "gen": [seed, sub, j], "cfg": cfg_name(cfg), "tag": tag, "pdf": pdf, "twin": twin,
+        "gen": [seed, sub, j], "cfg": cfg_name(cfg), "tag": tag, "pdf": pdf, "twin": twin, "damage": damage,
         "valid": [list(v) for v in valid], "wrong": [list(w) for w in wrong],
         "objects": expect_objs, "streams": expect_streams, "members": members, "sd_nums": sd_nums,
         "id": None if id_mode == "absent" else [enc.id[0], enc.id[1]], "P": P,
@@ -629,7 +682,8 @@ def gen_case(seed: int, sub: int, j: int, tier: str = "quick") -> Dict[str, Any]
         "xref_objnum": xref_objnum, "caching": caching, "encrypt_metadata": encrypt_metadata, "meta_n": meta_n,
         "features": {"ucat": ucat, "ocat": ocat, "id_mode": id_mode, "xref_kind": xref_kind, "builder": builder,
                      "large": large, "encrypt_direct": opts["encrypt_direct"], "length_written": opts["write_length"] and V >= 2,
-                     "w3": w3 if xk == "stream" else None, "per_object_key": V < 5 and cfm != "Identity",
+                     "w3": w3 if xk == "stream" else None, "damage": damage,
+                     "gen_content_or_info": any(doc.gens.get(n, 0) for n, o in doc.objs.items() if isinstance(o, Stream) and stream_plain[n][1].startswith("content")) or bool(doc.gens.get(doc.trailer["Info"].n, 0)), "per_object_key": V < 5 and cfm != "Identity",
                      "W": (binfo.get("W") if builder == "sparse" and xk == "stream" else ([1, 4, 2] if xk == "stream" else None)), "lines": lines_total,
                      "really_encrypted": really_encrypted, "gens": sorted(set(doc.gens.values())), "n_gen_objects": len(doc.gens),
                      "objnums_large": sorted(n for n in doc.objs if n >= 255)},
@@ -676,6 +730,9 @@ def check_valid(case: Dict[str, Any], role: str, pw: str, obs: Dict[str, Any]) -
     except Exception as e:  # noqa: BLE001
         return [("open_valid_password:%s" % _exc_key(e), "%s: %r" % (where, e))]
     obs["open_%s_ok" % role] = obs.get("open_%s_ok" % role, 0) + 1
+    if case.get("damage"):
+        used = bool(doc.xrefs) and type(doc.xrefs[0]).__name__ == "PDFXRefFallback"
+        obs["fallback_xref_opens" if used else "fallback_xref_not_used"] = obs.get("fallback_xref_opens" if used else "fallback_xref_not_used", 0) + 1
     members = set(case["members"])
 
     # objects
@@ -833,6 +890,8 @@ def check_case(case: Dict[str, Any], obs: Optional[Dict[str, Any]] = None,
             f = [(TAG_IDDEFAULT, f[0][1])]
         elif tag == TAG_SASLMAP and role == "user" and f and all(k.startswith("open_valid_password:") for k, _ in f):
             f = [(TAG_SASLMAP, f[0][1])]
+        if case.get("damage"):
+            f = [(k if k in TAGS else k + "@rebuilt_xref", d) for k, d in f]
         if attempts is not None:
             attempts.append((pw, f))
         fails += f
@@ -969,6 +1028,15 @@ def run_shard(spec: Dict[str, Any], rec) -> None:
                 rec.see("large_objnums", n)
         if feat["encrypt_direct"]:
             rec.count("encrypt_dict_direct")
+        if feat["damage"]:
+            rec.count("damaged_xref_docs")
+            rec.see("damage_mode", feat["damage"])
+            if feat["per_object_key"] and feat["n_gen_objects"]:
+                rec.count("damaged_xref_docs:per_object_key_with_gen")
+                if feat["gen_content_or_info"]:
+                    rec.count("damaged_xref_docs:per_object_key_with_gen_on_content_or_info")
+        elif feat["gen_content_or_info"]:
+            rec.count("intact_docs_with_gen_on_content_or_info")
         if feat["w3"] is not None:
             rec.count("xref_w3:%d" % feat["w3"])
             rec.see("xref_W", "%d %d %d" % tuple(feat["W"]))
